@@ -30,28 +30,4 @@ def run(r):
     r.rule = RULE
     r.assumptions = ["std::sync::RwLock provides mutual exclusion (the concurrent theorem is stated over atomic steps)",
                      "HashMap is a finite map; VecDeque is a sequence"]
-    ok = r.coq_make(["theories/C29/Proofs.vo"])
-    if ok:
-        r.props_compile()
-    else:
-        r.coq_make(["theories/C29/Model.vo"])
-    lock_shape(r)
-    if not r.build_harness():
-        r.corr_broken.append("harness does not build against the current tree")
-        return r.finish()
-    tiers = [r.tier]
-    for attempt, tier in enumerate(tiers + (["thorough"] if r.tier == "quick" else [])):
-        if attempt == 1 and not (r.proof_broken or r.corr_broken):
-            break
-        if attempt == 1:
-            r.note("obligation broken: widening the search (thorough generator)")
-            if [v for v in r.violations if not v[2]]:
-                break
-        out, rc, log = r.harness("c29", cases_from=r.replay, tier=tier, sub="c29_%d" % attempt)
-        if rc != 0:
-            r.corr_broken.append("harness c29 failed: " + log[-200:])
-            break
-        for ch in ("seq", "conc"):
-            meta, fails = r.coq_eval(out, ch)
-            r.handle_fails(ch, meta, fails)
-    return r.finish()
+    return standard(r, "c29", ["theories/C29/Proofs.vo"], ["theories/C29/Model.vo"], ["seq", "conc"], pre=lock_shape)
